@@ -132,6 +132,7 @@ ResultBad ==
 
 StatusBad ==
   IF Cur.proc = "CREATE" /\ CreateMustSayExist(PreT, P, Cur.name, Cur.ncls, Cur.how, Cur.verf, VerfOf(C)) /\ Cur.st # "EXIST"
+     /\ ~OddMode      \* (a malformed mode word may be refused as such before the name is looked at)
   THEN {[prop |-> "C03", why |-> "GUARDED/EXCLUSIVE CREATE of an existing name must fail with NFS3ERR_EXIST"]}
   ELSE IF MaxFS > 0 /\ Cur.st # "FBIG" /\
           ((Cur.proc = "WRITE" /\ Cur.offc = "small" /\ Kind(PreT, P) = "F" /\ Cur.off + Len(Cur.data) > MaxFS)
